@@ -6,8 +6,15 @@
 //! Oracle (independent of Coq): a hand-written CSS-identifier scanner (`ref_key`), the partition
 //! statement evaluated on the dumped stores, the lookup statement as a multiset, and
 //! "reachable by lookup xor through url_cosmetic_resources(..).hide_selectors".
+//! Engine paths: every rule set is asked on the directly built engine AND on engines that reached
+//! their state another way (serialize_raw + deserialize into a fresh Engine / into an engine that
+//! already held other rules, FilterSet filled in two or three portions by add_filters /
+//! add_filter_list / add_filter, one add_filter_list call, a piecewise engine after a round trip);
+//! stores, lookup answers and per-site resources must equal those of the direct engine, and the
+//! three oracles and the model cases are applied to the other engines as well.
 use adblock::cosmetic_filter_cache::verif::key_from_selector;
-use adblock::lists::{parse_filter, ParsedFilter};
+use adblock::lists::{parse_filter, FilterSet, ParsedFilter};
+use adblock::verif_hooks::CosmeticDump;
 use adblock::verif_hooks::dump_cosmetic;
 use adblock::Engine;
 use implrun::*;
@@ -150,6 +157,46 @@ fn gen_rules(r: &mut Rng) -> Vec<String> {
         }
         v.push(line);
     }
+    if r.chance(1, 2) {
+        // compound selectors keyed by a class AND compound selectors keyed by an id in one engine,
+        // half of the time over the SAME name, so that only the kind of store tells them apart
+        const NAMES: &[&str] = &["ad", "a", "b", "ad-box", "\\61 d", "x\\:y", "é", "\\31 "];
+        const CTAILS: &[&str] = &[" > div", ":hover", "[href]", ".b", " .c", "#i", "+p", "~q", " "];
+        let cn = r.pick(NAMES);
+        let idn = if r.chance(1, 2) { cn } else { r.pick(NAMES) };
+        let mut block = vec![format!("##.{}{}", cn, r.pick(CTAILS)), format!("###{}{}", idn, r.pick(CTAILS))];
+        if r.chance(1, 2) {
+            block.push(format!("##.{}{}", cn, r.pick(CTAILS)));
+        }
+        if r.chance(1, 2) {
+            block.push(format!("###{}{}", idn, r.pick(CTAILS)));
+        }
+        if r.chance(1, 3) {
+            block.push(format!("##.{}", cn));
+        }
+        if r.chance(1, 3) {
+            block.push(format!("###{}", idn));
+        }
+        if r.chance(1, 4) {
+            block.push(format!("~example.com###{}{}", idn, r.pick(CTAILS)));
+        }
+        for b in block {
+            let at = r.below(v.len() + 1);
+            v.insert(at, b);
+        }
+    }
+    v
+}
+
+/// Rules an engine held BEFORE another engine's bytes are deserialized into it: same vocabulary
+/// (so that a leftover would be visible in the lookups) plus selectors of its own.
+fn gen_other_rules(r: &mut Rng) -> Vec<String> {
+    let mut v = gen_rules(r);
+    v.push("##.left-over > div".into());
+    v.push("###left-over:hover".into());
+    v.push("##.left-over".into());
+    v.push("example.com##.ad".into());
+    v.push("||left-over.example^".into());
     v
 }
 
@@ -178,18 +225,101 @@ fn cmap(m: &[(String, Vec<String>)]) -> String {
     clist(m, |(k, b)| format!("({}, {})", hxs(k), cstrs(b)))
 }
 
-struct SetRun {
-    g: Vec<String>,
-    got: Vec<String>,
-    failures: Vec<String>,
-    exprs: Vec<(String, bool)>,
+/// How the other engines of a set case are produced (part of the replay record).
+#[derive(Clone)]
+struct Alt {
+    /// rules held by the engine that receives the bytes in the `serde_over` path
+    other_rules: Vec<String>,
+    /// 1 or 2 cut positions: the rule list is added in 2 or 3 portions
+    cuts: Vec<usize>,
+}
+impl Alt {
+    fn json(&self) -> Value {
+        json!({"other_rules": self.other_rules, "cuts": self.cuts})
+    }
+    fn from_json(v: &Value, n: usize) -> Alt {
+        let cuts: Vec<usize> = v["cuts"].as_array().map(|a| a.iter().map(|x| x.as_u64().unwrap_or(0) as usize).collect()).unwrap_or_else(|| vec![n / 2]);
+        Alt { other_rules: strs(&v["other_rules"]), cuts }
+    }
+}
+const PATHS: &[&str] = &["serde_fresh", "serde_over", "pieces", "filter_list", "serde_of_pieces"];
+
+/// The rule list cut into its portions.
+fn portions<'a>(rules: &'a [String], cuts: &[usize]) -> Vec<&'a [String]> {
+    let mut c: Vec<usize> = cuts.iter().map(|x| (*x).min(rules.len())).collect();
+    c.sort();
+    let mut out = vec![];
+    let mut at = 0;
+    for x in c {
+        out.push(&rules[at..x]);
+        at = x;
+    }
+    out.push(&rules[at..]);
+    out
 }
 
-/// Build the engine, dump, look up; returns the Coq expressions and the oracle failures.
-fn run_set(rules: &[String], classes: &[String], ids: &[String], exc: &[String]) -> SetRun {
-    let engine = Engine::from_rules(rules.iter(), Default::default());
-    let g = generic_selectors(rules);
-    let d = dump_cosmetic(&engine);
+/// FilterSet filled piecewise: portion 0 by add_filters, portion 1 as one text by add_filter_list,
+/// portion 2 rule by rule with add_filter.
+fn piecewise(rules: &[String], cuts: &[usize]) -> Engine {
+    let mut fs = FilterSet::new(false);
+    for (k, part) in portions(rules, cuts).iter().enumerate() {
+        match k % 3 {
+            0 => {
+                fs.add_filters(part.iter(), Default::default());
+            }
+            1 => {
+                fs.add_filter_list(&part.join("\n"), Default::default());
+            }
+            _ => {
+                for l in part.iter() {
+                    let _ = fs.add_filter(l, Default::default());
+                }
+            }
+        }
+    }
+    Engine::from_filter_set(fs, true)
+}
+
+fn other_engine(path: &str, direct: &Engine, rules: &[String], alt: &Alt) -> Result<Engine, String> {
+    let into = |mut e: Engine, bytes: Vec<u8>| -> Result<Engine, String> {
+        e.deserialize(&bytes).map_err(|x| format!("deserialize failed: {:?}", x))?;
+        Ok(e)
+    };
+    match path {
+        "serde_fresh" => into(Engine::default(), direct.serialize_raw().map_err(|x| format!("serialize_raw failed: {:?}", x))?),
+        "serde_over" => into(Engine::from_rules(alt.other_rules.iter(), Default::default()), direct.serialize_raw().map_err(|x| format!("serialize_raw failed: {:?}", x))?),
+        "pieces" => Ok(piecewise(rules, &alt.cuts)),
+        "filter_list" => {
+            let mut fs = FilterSet::new(false);
+            fs.add_filter_list(&rules.join("\n"), Default::default());
+            Ok(Engine::from_filter_set(fs, true))
+        }
+        _ => {
+            let p = piecewise(rules, &alt.cuts);
+            into(Engine::new(false), p.serialize_raw().map_err(|x| format!("serialize_raw failed: {:?}", x))?)
+        }
+    }
+}
+
+/// What one engine answers for a set case.
+struct View {
+    d: CosmeticDump,
+    got: Vec<String>,
+    /// hide_selectors / exceptions of three sites (sorted): unrelated host, example.com, sub.example.com
+    sites: Vec<(Vec<String>, Vec<String>)>,
+    failures: Vec<String>,
+}
+const SITES: &[&str] = &["https://unrelated-host.test/page", "https://example.com/", "https://sub.example.com/x"];
+
+fn sorted(h: &HashSet<String>) -> Vec<String> {
+    let mut v: Vec<String> = h.iter().cloned().collect();
+    v.sort();
+    v
+}
+
+/// Dump, look up, and apply the three oracles to this engine.
+fn examine(engine: &Engine, g: &[String], classes: &[String], ids: &[String], exc: &[String]) -> View {
+    let d = dump_cosmetic(engine);
     let excs: HashSet<String> = exc.iter().cloned().collect();
     let got = engine.hidden_class_id_selectors(classes.iter(), ids.iter(), &excs);
     let mut failures = vec![];
@@ -247,7 +377,7 @@ fn run_set(rules: &[String], classes: &[String], ids: &[String], exc: &[String])
     // --- oracle 2: lookup = [ s | generic s, key s in .C u #I, s not in E ] as a multiset
     let mut simple: BTreeSet<String> = BTreeSet::new();
     let mut complex: Vec<(String, String)> = vec![];
-    for s in &g {
+    for s in g {
         match ref_key(s) {
             Some(k) if (s.starts_with('.') || s.starts_with('#')) && &k == s => {
                 simple.insert(s.clone());
@@ -278,7 +408,7 @@ fn run_set(rules: &[String], classes: &[String], ids: &[String], exc: &[String])
     }
 
     // --- oracle 3: reachable through the lookup xor through the per-site resources
-    let site = engine.url_cosmetic_resources("https://unrelated-host.test/page");
+    let site = engine.url_cosmetic_resources(SITES[0]);
     for s in gset.iter() {
         let by_lookup = match ref_key(s) {
             Some(k) => {
@@ -300,13 +430,24 @@ fn run_set(rules: &[String], classes: &[String], ids: &[String], exc: &[String])
             ));
         }
     }
+    let sites = SITES
+        .iter()
+        .map(|u| {
+            let r = engine.url_cosmetic_resources(u);
+            (sorted(&r.hide_selectors), sorted(&r.exceptions))
+        })
+        .collect();
+    View { d, got, sites, failures }
+}
 
-    // --- Coq expressions
+/// The three model cases for what one engine returned.
+fn exprs_of(g: &[String], classes: &[String], ids: &[String], exc: &[String], v: &View) -> Vec<(String, bool)> {
+    let d = &v.d;
     let mut texts: Vec<&str> = g.iter().map(|s| s.as_str()).collect();
     texts.extend(classes.iter().map(|s| s.as_str()));
     let uw = uni_word(&texts);
-    let gl = cstrs(&g);
-    let nontrivial = !got.is_empty();
+    let gl = cstrs(g);
+    let nontrivial = !v.got.is_empty();
     let e1 = format!(
         "stores_eqb (build {} {}) {} {} {} {} {}",
         uw, gl, cstrs(&d.simple_class_rules), cmap(&d.complex_class_rules), cstrs(&d.simple_id_rules),
@@ -314,13 +455,68 @@ fn run_set(rules: &[String], classes: &[String], ids: &[String], exc: &[String])
     );
     let e2 = format!(
         "strs_eqb (hidden (build {} {}) {} {} {}) {}",
-        uw, gl, cstrs(classes), cstrs(ids), cstrs(exc), cstrs(&got)
+        uw, gl, cstrs(classes), cstrs(ids), cstrs(exc), cstrs(&v.got)
     );
     let e3 = format!(
         "multiset_eqb (lookup_ref {} {} {} {} {}) {} || negb (nodupb {} && nodupb {} && nodupb {})",
-        uw, gl, cstrs(classes), cstrs(ids), cstrs(exc), cstrs(&got), gl, cstrs(classes), cstrs(ids)
+        uw, gl, cstrs(classes), cstrs(ids), cstrs(exc), cstrs(&v.got), gl, cstrs(classes), cstrs(ids)
     );
-    SetRun { g, got, failures, exprs: vec![(e1, d.complex_class_rules.len() + d.complex_id_rules.len() > 0), (e2, nontrivial), (e3, nontrivial)] }
+    vec![(e1, d.complex_class_rules.len() + d.complex_id_rules.len() > 0), (e2, nontrivial), (e3, nontrivial)]
+}
+
+struct SetRun {
+    g: Vec<String>,
+    got: Vec<String>,
+    failures: Vec<String>,
+    exprs: Vec<(String, bool)>,
+    /// (path, model cases) of the other engines
+    alt_exprs: Vec<(&'static str, Vec<(String, bool)>)>,
+    both_complex_stores: bool,
+    same_name_in_both: bool,
+}
+
+/// Build the engine directly and along every other path, dump, look up; returns the Coq
+/// expressions and the oracle failures.
+fn run_set(rules: &[String], classes: &[String], ids: &[String], exc: &[String], alt: &Alt) -> SetRun {
+    let engine = Engine::from_rules(rules.iter(), Default::default());
+    let g = generic_selectors(rules);
+    let direct = examine(&engine, &g, classes, ids, exc);
+    let mut failures = direct.failures.clone();
+    let mut alt_exprs = vec![];
+    for path in PATHS {
+        let e = match catch(std::panic::AssertUnwindSafe(|| other_engine(path, &engine, rules, alt))) {
+            Ok(Ok(e)) => e,
+            Ok(Err(m)) => {
+                failures.push(format!("path {}: {}", path, m));
+                continue;
+            }
+            Err(m) => {
+                failures.push(format!("path {}: panic while building the engine: {}", path, m));
+                continue;
+            }
+        };
+        let v = examine(&e, &g, classes, ids, exc);
+        for f in &v.failures {
+            failures.push(format!("engine reached by {}: {}", path, f));
+        }
+        if v.got != direct.got {
+            failures.push(format!("engine reached by {}: hidden_class_id_selectors returned {:?}, the directly built engine {:?}", path, v.got, direct.got));
+        }
+        let stores = |d: &CosmeticDump| (d.simple_class_rules.clone(), d.simple_id_rules.clone(), d.complex_class_rules.clone(), d.complex_id_rules.clone(), d.misc_generic_selectors.clone());
+        if stores(&v.d) != stores(&direct.d) {
+            failures.push(format!("engine reached by {}: generic stores {:?} differ from those of the directly built engine {:?}", path, stores(&v.d), stores(&direct.d)));
+        }
+        for (k, u) in SITES.iter().enumerate() {
+            if v.sites[k] != direct.sites[k] {
+                failures.push(format!("engine reached by {}: url_cosmetic_resources({}) (hide_selectors, exceptions) = {:?}, directly built engine {:?}", path, u, v.sites[k], direct.sites[k]));
+            }
+        }
+        alt_exprs.push((*path, exprs_of(&g, classes, ids, exc, &v)));
+    }
+    let exprs = exprs_of(&g, classes, ids, exc, &direct);
+    let both = !direct.d.complex_class_rules.is_empty() && !direct.d.complex_id_rules.is_empty();
+    let same = direct.d.complex_class_rules.iter().any(|(k, _)| direct.d.complex_id_rules.iter().any(|(k2, _)| k == k2));
+    SetRun { g, got: direct.got, failures, exprs, alt_exprs, both_complex_stores: both, same_name_in_both: same }
 }
 
 fn key_case(cs: &mut Cases, sm: &mut Summary, sel: &str, kind: &str) {
@@ -357,7 +553,9 @@ fn main() {
             println!("selector={:?} impl={:?} spec={:?}", sel, got, want);
             bad = got != want;
         } else {
-            let run = run_set(&strs(&rp["rules"]), &strs(&rp["classes"]), &strs(&rp["ids"]), &strs(&rp["exceptions"]));
+            let rules = strs(&rp["rules"]);
+            let alt = Alt::from_json(&rp["alt"], rules.len());
+            let run = run_set(&rules, &strs(&rp["classes"]), &strs(&rp["ids"]), &strs(&rp["exceptions"]), &alt);
             println!("generic selectors={:?}\nlookup={:?}", run.g, run.got);
             for f in &run.failures {
                 println!("FAIL: {}", f);
@@ -373,7 +571,7 @@ fn main() {
     let mut r = Rng::new(a.seed);
     let mut cs = Cases::new(&a.out, "C17_Model");
     let mut sm = Summary::default();
-    sm.rule = "key: selectors = head (. # none) + 0-4 identifier pieces (words incl. non-ASCII, 35 escape spellings: hex of length 1-9 with/without the space, surrogates, > 10FFFF, u32 overflow, escaped punctuation/non-ASCII, trailing backslash) + tail; plus every string of <= 4 (quick) / <= 5 (thorough) symbols over {. # a \\ 3 space - :}; set: lists of 1-12 generic / negated-only / host-scoped rules over a colliding identifier vocabulary with duplicates, class/id queries drawn from the stored keys, exceptions drawn from the stored selectors; non-trivial = key case with an escape or non-ASCII, set case with a non-empty lookup result (resp. a complex bucket)".into();
+    sm.rule = "key: selectors = head (. # none) + 0-4 identifier pieces (words incl. non-ASCII, 35 escape spellings: hex of length 1-9 with/without the space, surrogates, > 10FFFF, u32 overflow, escaped punctuation/non-ASCII, trailing backslash) + tail; plus every string of <= 4 (quick) / <= 5 (thorough) symbols over {. # a \\ 3 space - :}; set: lists of 1-12 generic / negated-only / host-scoped rules over a colliding identifier vocabulary with duplicates, half of them with a block of compound selectors keyed by a class AND compound selectors keyed by an id (same name in both kinds of store half of the time), class/id queries drawn from the stored keys (a quarter: one name as class only / id only / both), exceptions drawn from the stored selectors; every set is asked on the directly built engine and on FIVE OTHER ENGINE PATHS (serialize_raw + deserialize into a fresh Engine; into an engine that already held other rules; FilterSet filled in 2-3 portions by add_filters / add_filter_list / add_filter; one add_filter_list; the piecewise engine after a round trip): stores, lookup, per-site resources of 3 sites must equal the direct engine's and satisfy the same three oracles; non-trivial = key case with an escape or non-ASCII, set case with a non-empty lookup result (resp. a complex bucket)".into();
     sm.extra.insert("ascii_word_contract".into(), json!(ascii_word_contract()));
     if !ascii_word_contract() {
         sm.failure(None, "regex \\w on ASCII is not [0-9A-Za-z_]", json!({"kind": "contract"}));
@@ -405,7 +603,7 @@ fn main() {
     }
 
     // --- stores + lookup
-    for _ in 0..(600 * a.scale) {
+    for case_no in 0..(600 * a.scale) {
         let rules = gen_rules(&mut r);
         let g = generic_selectors(&rules);
         let mut names: Vec<String> = vec![];
@@ -414,13 +612,33 @@ fn main() {
                 names.push(k[1..].to_string());
             }
         }
-        names.extend(["ad", "a", "zz", ".x", "é"].iter().map(|s| s.to_string()));
+        names.extend(["ad", "a", "zz", ".x", "é", "left-over"].iter().map(|s| s.to_string()));
         let pickn = |r: &mut Rng, lo: usize, hi: usize| -> Vec<String> {
             let n = r.range(lo, hi);
             (0..n).map(|_| names[r.below(names.len())].clone()).collect()
         };
         let mut classes = pickn(&mut r, 0, 4);
         let mut ids = pickn(&mut r, 0, 3);
+        if r.chance(1, 4) {
+            // one name asked as a class only / as an id only / as both: a compound selector keyed by
+            // the class must not answer the id query and vice versa
+            let n = names[r.below(names.len())].clone();
+            match r.below(3) {
+                0 => {
+                    classes = vec![n];
+                    ids = vec![];
+                }
+                1 => {
+                    ids = vec![n];
+                    classes = vec![];
+                }
+                _ => {
+                    classes = vec![n.clone()];
+                    ids = vec![n];
+                }
+            }
+            cs.stat("query_one_name_as_class_or_id");
+        }
         if r.chance(2, 3) {
             // usually without repeated names (the multiset statement of the lookup needs that)
             let mut seen = HashSet::new();
@@ -437,16 +655,44 @@ fn main() {
         if r.chance(1, 4) {
             exc.push(format!(".{}", names[r.below(names.len())]));
         }
-        let run = run_set(&rules, &classes, &ids, &exc);
-        sm.oracle_evaluations += 3;
-        let desc = json!({"kind": "set", "rules": rules, "classes": classes, "ids": ids, "exceptions": exc,
+        // the other engines of this case
+        let mut cuts = vec![r.below(rules.len() + 1)];
+        if r.chance(1, 2) {
+            cuts.push(r.below(rules.len() + 1));
+        }
+        cuts.sort();
+        let alt = Alt { other_rules: gen_other_rules(&mut r), cuts };
+        let run = run_set(&rules, &classes, &ids, &exc, &alt);
+        sm.oracle_evaluations += 3 * (1 + PATHS.len() as u64) + 3 * PATHS.len() as u64;
+        let desc = json!({"kind": "set", "rules": rules, "classes": classes, "ids": ids, "exceptions": exc, "alt": alt.json(),
                           "generic_selectors": run.g, "impl_lookup": run.got});
         for f in &run.failures {
             sm.failure(None, f, desc.clone());
         }
         cs.stat(if run.got.is_empty() { "lookup_empty" } else { "lookup_nonempty" });
+        if run.both_complex_stores {
+            cs.stat("set_with_complex_class_and_complex_id_store");
+        }
+        if run.same_name_in_both {
+            cs.stat("set_with_one_name_keying_both_complex_stores");
+        }
+        cs.stat(if alt.cuts.len() == 1 { "pieces_two_portions" } else { "pieces_three_portions" });
         for (e, nt) in run.exprs {
             cs.case(e, desc.clone(), nt);
+        }
+        // model cases for the other engines: all five paths are judged by the oracles above; the
+        // stores + exact-order lookup cases are written for one of them in turn
+        for (path, _) in &run.alt_exprs {
+            cs.stat(&format!("engine_path_{}", path));
+        }
+        if let Some((path, ex)) = run.alt_exprs.get(case_no % PATHS.len()).or(run.alt_exprs.first()) {
+            let mut d2 = desc.clone();
+            d2["engine_path"] = json!(path);
+            for (e, nt) in ex.iter().take(2) {
+                // (same text as the direct case when the engines agree: then it is evaluated again
+                // under this path's name; a differing text is a differing store or answer)
+                cs.case(format!("{} (* {} *)", e, path), d2.clone(), *nt);
+            }
         }
     }
     cs.finish();
